@@ -1062,6 +1062,94 @@ def pseudo_field_sources(res):
         res.count("oracle:source-class-variables-are-not-members", 6)
 
 
+# ---- structured classes that also have protocol methods (callable, sized, by-name subscription, ** unpacking): the members are still
+# converted by the routines of their own annotated types, in both directions
+PROTO_SRC = """
+import dataclasses, datetime, decimal, typing
+class Scale:
+    def __init__(self, factor: decimal.Decimal, offset: int = 0, since: datetime.date = datetime.date(2020, 1, 1)):
+        self.factor, self.offset, self.since = factor, offset, since
+    def __call__(self, x):
+        return x
+@dataclasses.dataclass
+class Gauge:
+    factor: decimal.Decimal
+    offset: int = 0
+    since: datetime.date = datetime.date(2020, 1, 1)
+    def __len__(self):
+        return self.offset
+    def __getitem__(self, k):
+        return getattr(self, k)
+    def keys(self):
+        return ["factor", "offset", "since"]
+@dataclasses.dataclass
+class Holder:
+    label: str
+    items: typing.Dict[str, Scale] = dataclasses.field(default_factory=dict)
+    gauges: typing.List[Gauge] = dataclasses.field(default_factory=list)
+"""
+
+
+def _proto_child(_job):
+    import sys
+    import types
+    import warnings
+    warnings.simplefilter("ignore")
+    import datetime
+    import decimal
+    import typelib
+    mod = types.ModuleType("vm_c05_proto")
+    sys.modules["vm_c05_proto"] = mod
+    exec(compile(PROTO_SRC, "vm_c05_proto.py", "exec", dont_inherit=True), mod.__dict__)
+    bad = []
+    wire = {"factor": "2.50", "offset": "3", "since": "2024-02-29"}
+    exp = {"factor": typelib.unmarshal(decimal.Decimal, "2.50"), "offset": typelib.unmarshal(int, "3"),
+           "since": typelib.unmarshal(datetime.date, "2024-02-29")}
+    mexp = {"factor": typelib.marshal(exp["factor"]), "offset": 3, "since": typelib.marshal(exp["since"])}
+
+    def fields(o):
+        return {k: getattr(o, k) for k in ("factor", "offset", "since")}
+    for cls in (mod.Scale, mod.Gauge):
+        for label, src in (("mapping", wire), ("pairs", list(wire.items())), ("JSON text", '{"factor": "2.50", "offset": "3", "since": "2024-02-29"}')):
+            try:
+                got = fields(typelib.unmarshal(cls, src))
+            except Exception as e:  # noqa: BLE001
+                got = f"raised {type(e).__name__}"
+            if got != exp or (isinstance(got, dict) and any(type(got[k]) is not type(exp[k]) for k in exp)):
+                bad.append(f"unmarshal({cls.__name__}, <{label}>) has members {got!r}; by their own routines: {exp!r}")
+        try:
+            m = typelib.marshal(cls(**exp))
+        except Exception as e:  # noqa: BLE001
+            m = f"raised {type(e).__name__}"
+        if m != mexp:
+            bad.append(f"marshal({cls.__name__}(...)) = {m!r}; members by their own routines: {mexp!r}")
+    try:
+        h = typelib.unmarshal(mod.Holder, {"label": 7, "items": {"k": wire}, "gauges": [wire]})
+        got = (h.label, fields(h.items["k"]), fields(h.gauges[0]))
+    except Exception as e:  # noqa: BLE001
+        got = f"raised {type(e).__name__}: {e}"[:200]
+    if got != ("7", exp, exp):
+        bad.append(f"unmarshal(Holder, ...) has members {got!r}; by their own routines: {('7', exp, exp)!r}")
+    try:
+        hm = typelib.marshal(mod.Holder("h", {"k": mod.Scale(**exp)}, [mod.Gauge(**exp)]))
+    except Exception as e:  # noqa: BLE001
+        hm = f"raised {type(e).__name__}: {e}"[:200]
+    if hm != {"label": "h", "items": {"k": mexp}, "gauges": [mexp]}:
+        bad.append(f"marshal(Holder(...)) = {hm!r}")
+    return bad
+
+
+def protocol_method_classes(res):
+    bad = iso.map_isolated(_proto_child, [None], timeout=60.0)[0]
+    if not isinstance(bad, list):
+        raise RuntimeError(f"harness: protocol-method class probe failed: {bad}")
+    res.case({"family": "structured-class-with-protocol-methods"}, True)
+    for b in bad:
+        res.failures.append({"what": b, "input": {"proto": True}})
+    if not bad:
+        res.count("oracle:members-of-callable/sized/record-like-classes-converted-by-their-own-types", 10)
+
+
 def explore(ctx):
     res = Result()
     res.rule = RULE
@@ -1080,6 +1168,7 @@ def explore(ctx):
     res.extra["module_sets"] = n
     pseudo_field_sources(res)
     cross_module_inheritance(res)
+    protocol_method_classes(res)
     return res
 
 
@@ -1107,6 +1196,10 @@ def replay(failure):
     inp = failure["input"]
     if "xmod" in inp:
         bad = iso.map_isolated(_xmod_child, [None], timeout=60.0)[0]
+        print(json.dumps({"differences": bad}, indent=1))
+        return bool(bad)
+    if "proto" in inp:
+        bad = iso.map_isolated(_proto_child, [None], timeout=60.0)[0]
         print(json.dumps({"differences": bad}, indent=1))
         return bool(bad)
     if "pseudo_source" in inp:
